@@ -379,6 +379,54 @@ def type_show_ops(rng):
                 ops.append(make_op(segs, args, old, start))
     return ops
 
+# ---- the two-pass sizing of String_Format_To: pieces of EVERY length, around every buffer size an implementation might use ------------------
+SIZE_EDGES = [254, 255, 256, 257, 258, 510, 511, 512, 513, 514, 1022, 1023, 1024, 1025, 1026]
+SIZE_EDGES_THOROUGH = [2046, 2047, 2048, 2049, 4094, 4095, 4096, 4097, 4098, 8191, 8192, 8193]
+
+def sized_piece(rng, L, kind):
+    """(segments, args) of ONE format_to call whose output has exactly L characters: kind 0 = `%s` of an L-byte String, 1 = a literal run of L
+    bytes (L >= 1), 2 = a field width (`%<L>d`, `%-<L>s`, `%0<L>x`: L >= 1), 3 = a precision (`%.<L-2>f` of a one-digit value, L >= 3)"""
+    if kind == 1 and L >= 1: return [('lit', gen_bytes(rng, L, L, no_pct=True))], []
+    if kind == 2 and L >= 1:
+        c = rng.choice('dsx')
+        if c == 'd': return [('spec', rng.choice(['', '-', '0', '+']) + str(L), 'd')], [('i', rng.randrange(-9, 10) if L >= 2 else rng.randrange(0, 10))]
+        if c == 'x': return [('spec', rng.choice(['', '-', '0']) + str(L) + rng.choice(['', 'l', 'll']), 'x')], [('i', rng.randrange(0, 16))]
+        return [('spec', rng.choice(['', '-']) + str(L), 's')], [('s', gen_bytes(rng, 0, min(L, 3)))]
+    if kind == 3 and L >= 3: return [('spec', '.' + str(L - 2), rng.choice('fF'))], [('f', bits_of(float(rng.randrange(0, 10))))]
+    return [('spec', '', 's')], [('s', gen_bytes(rng, L, L))]
+
+def sizing_ops(rng, quick):
+    """one piece of every length 0..130 and around 256 / 512 / 1024 (thorough: up to 8193) by each of four ways of producing it, alone on every
+    kind of start position (0, inside, end of an old String that is shorter / longer than the result: the block grows, shrinks, keeps its size),
+    and as the first / middle / last piece of a format (so that the position accounting after it is exercised at that size)"""
+    ops = []
+    lens = list(range(0, 131)) + SIZE_EDGES + ([] if quick else SIZE_EDGES_THOROUGH)
+    for L in lens:
+        for kind in range(4):
+            if L > 300 and kind != 0 and kind != 2 and quick: continue
+            segs, args = sized_piece(rng, L, kind)
+            # old String: empty / shorter than the piece / exactly as long as the result / longer (shrinks)
+            for variant in range(3 if quick else 5):
+                r = rng.random()
+                if variant == 0: old, start = b'', 0
+                elif variant == 1:
+                    old = gen_bytes(rng, 1, 40); start = len(old)
+                elif variant == 2:
+                    old = gen_bytes(rng, L + 1, L + 1 + rng.randrange(0, 9)); start = rng.choice([0, 0, 1])          # result shorter than or equal to the old block
+                elif variant == 3:
+                    start = rng.randrange(0, 12); old = gen_bytes(rng, start + L, start + L)                                # result exactly as long as the old value
+                else:
+                    old = gen_bytes(rng, 1, 2 * L + 2); start = rng.randrange(0, len(old) + 1)
+                pre = post = []
+                if variant >= 1 and r < 0.5:
+                    pre = rng.choice([[], [('lit', gen_bytes(rng, 1, 5, no_pct=True))], [('pct',)], [('spec', '', 'd')]])
+                    post = rng.choice([[], [('lit', gen_bytes(rng, 1, 5, no_pct=True))], [('pct',)], [('spec', '', 's')], [('spec', '', '$')]])
+                if pre and pre[-1][0] == 'lit' and segs[0][0] == 'lit': pre = [('pct',)]
+                if post and post[0][0] == 'lit' and segs[-1][0] == 'lit': post = [('pct',)]
+                a2 = [gen_arg_for(rng, sg[2]) for sg in pre if sg[0] == 'spec'] + args + [gen_scalar(rng) if sg[2] == '$' else gen_arg_for(rng, sg[2]) for sg in post if sg[0] == 'spec']
+                ops.append(make_op(pre + segs + post, a2, old, start))
+    return ops
+
 MALFORMED = [b'%', b'%5', b'%-', b'%l', b'%.3', b'abc%', b'abc%5', b'x%ll', b'%%%', b'ab%%%', b'%d%', b'%d %', b'%#08.3l', b'%hh',
              b'%5%', b'%z', b'a%', b'%\xc3']
 
@@ -411,6 +459,12 @@ class C14(Spec):
                   'without Show writes each element\'s own show text once, in iteration order, between the texts read from the source (C14_show_containers, C14_show_more); '
                   '%$ on a Type object is one %s call with its name and the position goes on after it (C14_type_show_position, tied to the form of Type_Show read from the source: '
                   'C14_type_show_returns_position; the OLD form, fixed by 0046a69, is exhibited by C14_type_show_old_refuted). '
+                  'Block level (Cello/FmtSize.lean; the statements AND the size expressions of String_Format_To read from the source, C14_string_format_to_sizing_source): for every block reaching the start '
+                  'position and every text of every length the two-pass sizing (measure, realloc(pos + size + 1), vsprintf at pos) leaves block[0..pos) ++ text ++ NUL, pos + |text| + 1 bytes, and returns |text| '
+                  '(C14_string_format_to_block, C14_string_content_after_call: the C string is old[0..pos) ++ text = the abstract sink); a whole call log replayed on the block never leaves it and ends where the '
+                  'abstract sink ends (C14_block_follows_sink); one byte less or one byte late is refuted for every call (C14_sizing_without_terminator_refuted, C14_sizing_write_late_refuted); File_Format_To '
+                  'statement by statement returns the same count (C14_file_format_to_steps, C14_sinks_return_same_count); the declared result type of the cast each dispatch arm applies is in the register class '
+                  'printf fetches that specification from and at least as wide, for every conversion x length modifier of the grammar (C14_arg_types_match_printf, C14_arg_type_table_is_the_grammar). '
                   'What libc prints for one specification is a parameter (trusted). '
                   'The model is tied to the code by regenerating the scan set / dispatch / show formats / function text from /repo every run and by '
                   'running thousands of generated formats on the real print_to_with (recording sink, String, File) and on the model.')
@@ -429,13 +483,17 @@ class C14(Spec):
             '(e) formats with a specification libc REJECTS (%lc with a value outside 0..127 in the "C" locale, widths/precisions >= 2^31) as the only segment, '
             'first, in the middle and last, after prefixes that are written (literal, %%, accepted specifications incl. accepted %lc), with a second rejected one later, '
             'with too few / wrong-class arguments before it; each on the recording sink, a String and a File, in a forked child (op J), '
-            '(g) %$ on Type objects (bare, inside Tuples and Boxes) in every sequence of up to 3 segments out of literal / %% / %d / %$, at start positions 0, middle and end of the old String. '
+            '(g) %$ on Type objects (bare, inside Tuples and Boxes) in every sequence of up to 3 segments out of literal / %% / %d / %$, at start positions 0, middle and end of the old String, '
+            '(h) one piece of EVERY length 0..130 and around 256 / 512 / 1024 (thorough: .. 8193) produced by %s, a literal run, a field width and a precision, on an empty / shorter / longer / equally long old String '
+            '(the block grows, shrinks, keeps its size: I-line counters grow/shrink/keep/emptypiece), alone and between other segments; the String line carries the allocated size of the block (cap=, the size the ASan allocator recorded). '
             'non-trivial = the format has at least one argument-consuming specification; distinct = distinct op text.')
-    trusted_base = ('translate/g_fmt.py (regex over src/Show.c print_to_with / show_to, String_Format_To, File_Format_To and the Show functions of Num.c, String.c, Array.c, Tuple.c, List.c, Table.c, Tree.c, Iter.c, Pointer.c, Type.c)',
+    trusted_base = ('translate/g_fmt.py (regex over src/Show.c print_to_with / show_to / format_to / format_to_va, String_Format_To (statements + realloc size / vsprintf offset as sums), File_Format_To (statements), the prototypes of c_int / c_float / c_str / var in include/Cello.h and the Show functions of Num.c, String.c, Array.c, Tuple.c, List.c, Table.c, Tree.c, Iter.c, Pointer.c, Type.c)',
                     'lean/Cello/Table.lean (C02 model: slot order of a Table, used by the driver only) and lean/Cello/Iter.lean (C11 model: values of a Range, driver only)',
                     'harness/h_fmt.c + lean/Driver/Fmt.lean (correspondence is testing)',
                     'libc printf family for ONE specification (model parameter `libc`: its text, or that it rejects the call; the op files carry its results, computed by the generator through ctypes from the same libc in the "C" locale)',
-                    'x86-64 SysV varargs: an int64_t passed where printf reads an int yields its low 32 bits (what print_to_with relies on for %d, %c, %hd ...)')
+                    'x86-64 SysV varargs: an int64_t passed where printf reads an int yields its low 32 bits (what print_to_with relies on for %d, %c, %hd ...); that class and width match is proved (C14_arg_types_match_printf), '
+                    'the table of what printf fetches per specification (Cello.Fmt.printfReads, C11 7.21.6.1 on LP64) is transcribed by hand',
+                    'realloc keeps the first min(old, new) bytes and returns a block of exactly the size asked (Cello.Fmt.reallocBlk); the harness reads the block size from the ASan allocator (__sanitizer_get_allocated_size)')
     assumptions = ('length modifiers restricted to those whose C type print_to_with can supply: hh h l ll j z t for integers, l for floating, none for c s p $ '
                    '(not L, not %ls); %lc is generated in the forked J ops only (libc rejects it for values the "C" locale cannot encode)',
                    'no `*` width/precision (known finding KF-C14-star-width: print_to_with passes ONE vararg per specification, libc reads two — witness corpus/kf_c14_star_width.ops, op V, '
@@ -462,6 +520,8 @@ class C14(Spec):
     def cases(self, rng, tier, boost=1):
         quick = tier == 'quick'
         cs = []
+        # (h) the two-pass sizing of String_Format_To: pieces of every length (runs first: a fit test off by one at a buffer size fails here at once)
+        for i, ch in enumerate(chunks(sizing_ops(rng, quick), 300)): cs.append(Case(f'size{i}', ch))
         # (a) lattice
         grid = grid_specs()
         ng = (2500 if quick else len(grid)) * (1 if quick else 1)
@@ -544,6 +604,8 @@ class C14(Spec):
         for l in core.lines_with('I ops=', c_out):
             for kv in l.split()[1:]:
                 k, v = kv.split('='); acc['h_' + k] = acc.get('h_' + k, 0) + int(v)
+        for l in core.lines_with('I maxpiece=', c_out):
+            acc['h_maxpiece'] = max(acc.get('h_maxpiece', 0), int(l.split('=')[1]))
         for l in core.lines_with('R len=', m_out):
             if ' rejected=' in l and int(l.split(' rejected=')[1].split()[0]) > 0:
                 acc['rejected_calls'] = acc.get('rejected_calls', 0) + 1
@@ -557,6 +619,7 @@ class C14(Spec):
         for l in m_out.split('\n'):
             if not l.startswith('R '): continue
             f = dict(kv.split('=') for kv in l.split()[1:] if '=' in kv)
+            if f.get('blk') in ('DIFF', 'UB'): return f'block-level String_Format_To (Cello/FmtSize.lean) differs from the abstract String sink: {l}'
             if f.get('ref') == 'DIFF': return f'machine differs from the reference semantics of the grammar: {l}'
             if 'ref' in f and (int(f['rd']) > int(f['len']) or int(f['wr']) > int(f['len'])): return f'access outside the buffers on a well-formed format: {l}'
         return None
